@@ -215,6 +215,11 @@ tzm_open(const char *fn)
 	}
 	/* turn offset into native endianness */
 	m->off = be32toh(m->off);
+	if (UNLIKELY(m->off > fz - sizeof(*m) || m->off % sizeof(znoff_t) ||
+		     m->off && m->data[m->off - 1U])) {
+		/* zone names must lie inside the file and be terminated */
+		goto mun;
+	}
 	/* also put fd and map size into m */
 	m->flags[0U] = (znoff_t)fd;
 	m->flags[1U] = (znoff_t)st->st_size;
@@ -247,12 +252,22 @@ DEFUN const char*
 tzm_find(tzmap_t m, const char *mname)
 {
 /* lookup zname for MNAME */
-	const znoff_t *sp = (const void*)tzm_mnames(m);
-	const znoff_t *ep = sp + tzm_mname_size(m) / sizeof(*sp) - 1U;
+	const char *const lo = tzm_mnames(m);
+	const size_t msz = tzm_mname_size(m);
+	const char *const hi = lo + msz - msz % sizeof(znoff_t);
+	const znoff_t *sp = (const void*)lo;
+	const znoff_t *ep;
 	const char *zns = tzm_znames(m);
 
-	/* do a bisection now */
+	if (UNLIKELY(msz < 2U * sizeof(*sp))) {
+		/* not a single entry */
+		return NULL;
+	}
+	ep = sp + msz / sizeof(*sp) - 1U;
+
+	/* do a bisection now, never leaving [LO, HI) */
 	do {
+		const znoff_t *const osp = sp, *const oep = ep;
 		const char *mp = mname;
 		const char *tp;
 		const char *p;
@@ -262,16 +277,22 @@ tzm_find(tzmap_t m, const char *mname)
 			/* fast forward to the next entry */
 			tp += sizeof(*sp);
 		} else {
-			while (tp[-1] != '\0') {
+			while (tp > lo && tp[-1] != '\0') {
 				/* rewind to beginning */
 				tp--;
 			}
 		}
+		if (UNLIKELY(tp >= hi)) {
+			break;
+		}
 		/* store tp again */
 		p = tp;
 		/* now unroll a strcmp */
-		for (; *mp && *mp == *tp; mp++, tp++);
-		if (*mp - *tp < 0) {
+		for (; *mp && tp < hi && *mp == *tp; mp++, tp++);
+		if (UNLIKELY(tp >= hi)) {
+			/* unterminated key, the file is broken */
+			break;
+		} else if (*mp - *tp < 0) {
 			/* use lower half */
 			ep = (const znoff_t*)p - 1U;
 		} else {
@@ -279,19 +300,29 @@ tzm_find(tzmap_t m, const char *mname)
 			const znoff_t *op =
 				(const znoff_t*)ALIGN_TO(znoff_t, tp - 1U) + 1U;
 
-			if (*mp - *tp > 0) {
+			if (UNLIKELY((const char*)(op + 1U) > hi)) {
+				break;
+			} else if (*mp - *tp > 0) {
 				/* use upper half */
 				sp = op + 1U;
-			} else {
+			} else if (LIKELY((be32toh(*op) >> 8U) <
+					  tzm_zname_size(m))) {
 				/* found it */
 				return zns + (be32toh(*op) >> 8U);
+			} else {
+				/* points outside the zone names */
+				break;
 			}
+		}
+		if (UNLIKELY(sp <= osp && ep >= oep)) {
+			/* no progress, the file is broken */
+			break;
 		}
 	} while (sp < ep);
 	return NULL;
 }
 
-
+
 #if defined STANDALONE
 /* array of all zone names */
 static char *zns;
